@@ -163,9 +163,9 @@ def validate (tf : TF F) : Bool :=
 
 /-- `_col_to_stype_idx[name]` -/
 def locate (tf : TF F) (name : String) : Option (Stype × Nat) :=
-  tf.names.foldl (fun acc (s, cols) =>
-    match cols.idxOf? name with
-    | some j => some (s, j)
+  tf.names.foldl (fun acc (g : Stype × List String) =>
+    match g.2.idxOf? name with
+    | some j => some (g.1, j)
     | none => acc) none
 
 /-- the entry for row `i` of the feature column called `name` (`get_col_feat(name)[i, 0]`) -/
@@ -230,6 +230,12 @@ def cfg (cv : Conv F) (col : String) : ColCfg F :=
 def mapCol (cv : Conv F) (df : DF L F) (col : String) : Option (ColOut F) :=
   (df.col? col).map fun c => forward (cv.cfg col) (cv.stypeOf col) df.labels c.cells
 
+/-- `y`: the target column through its own mapper, when `self.target_col in df` -/
+def yOf (cv : Conv F) (df : DF L F) : Option (ColOut F) :=
+  match cv.target with
+  | none => none
+  | some t => cv.mapCol df t
+
 /-- one step of the loop of `_merge_feat` (a stype is visited only if it is in the frame) -/
 def mergeStep (st : Option (List (Stype × Feat F) × List (Stype × List String))) (s : Stype) :
     Option (List (Stype × Feat F) × List (Stype × List String)) := do
@@ -252,13 +258,11 @@ def mergeFeat (feats : List (Stype × Feat F)) (names : List (Stype × List Stri
 
 /-- `__call__`: returns the frame AND the converter's state afterwards; `none` = raises -/
 def call (cv : Conv F) (df : DF L F) : Option (TF F × Conv F) := do
-  let feats ← cv.names.mapM fun (s, cols) => do
-    let xs ← cols.mapM fun c => cv.mapCol df c
-    let f ← assemble s xs
-    pure (s, f)
-  let y : Option (ColOut F) := match cv.target with
-    | none => none
-    | some t => cv.mapCol df t          -- `self.target_col in df`
+  let feats ← cv.names.mapM fun (g : Stype × List String) => do
+    let xs ← g.2.mapM fun c => cv.mapCol df c
+    let f ← assemble g.1 xs
+    pure (g.1, f)
+  let y : Option (ColOut F) := cv.yOf df
   let tf0 : TF F := { feats := feats, names := cv.names, y := y }
   if !tf0.validate then none else
   let (feats', names') ← mergeFeat feats cv.names
